@@ -10,15 +10,16 @@ PID = "C08"
 LEVEL = "other"
 WANT = "max_response_body_size"
 EXPLANATION = (
-    "Static structural analysis over MIR. Decided for every path of the current source: R1 the size operand of every "
+    'Static structural analysis over MIR. Decided for every path of the current source: R1 the size operand of every '
     "MethodResponse::{response,subscription_response} construction originates (identity-only) from the callback's "
-    "MaxResponseSize parameter or a field named max_response_body_size; the chain ServerConfig.max_response_body_size -> "
-    "RpcService::new (every site) -> RpcService.max_response_body_size -> callback argument is followed at each callback "
-    "invocation in RpcService::call; R2 the bounded writer's guard has normal form `buffered + incoming <= max_len` and "
-    "the response serializer writes through it; R3 BatchResponseBuilder::append refuses iff `entry + buffered + 1 > max`, "
-    "with -32011 / Id::Null, and its limit originates from RpcService.max_response_body_size; R4 the oversize single "
-    "result is answered with OVERSIZED_RESPONSE_CODE and the call's own id. "
-    "NOT decided: byte-exactness of serde_json's output vs. the accounting; behaviour for concrete sizes."
+    'MaxResponseSize parameter or a field named max_response_body_size; the chain ServerConfig.max_response_body_size '
+    '-> RpcService::new (every site) -> RpcService.max_response_body_size -> callback argument is followed at each '
+    "callback invocation in RpcService::call; R2 the bounded writer's guard has normal form `buffered + incoming <= "
+    'max_len` and the response serializer writes through it; R3 BatchResponseBuilder::append refuses iff `entry + '
+    'buffered + 1 > max`, with -32011 / Id::Null, and its limit originates from RpcService.max_response_body_size; R4 '
+    "the oversize single result is answered with OVERSIZED_RESPONSE_CODE and the call's own id. CFG "
+    "max_response_body_size reaches ServerConfig verbatim. NOT decided: byte-exactness of serde_json's output vs. the "
+    'accounting; behaviour for concrete sizes.'
 )
 RULE_TEXT = "instances = response-constructor sites, callback invocations, RpcService::new sites, guard comparisons, sum atoms; non-trivial = needed an origin trace or a guard normalisation"
 TRUSTED = ["rustc MIR + trait resolution", "serde_json::to_writer writes only through io::Write::write"]
